@@ -185,9 +185,18 @@ direct_call(struct mgrctx *c, const long k)
         case 6:
                 (void) mgr->queue_size(NULL); /* NULL manager through the handler: IMB_ERR_NULL_MBMGR, mirror only */
                 return 0;
-        case 7:
-                imb_hmac_ipad_opad(mgr, IMB_AUTH_HMAC_SHA_256, key, 20, ipad, opad);
-                return (long) ipad[0];
+        case 7: {
+                /* per-manager key material: a shared scratch buffer inside the library would show */
+                uint8_t k2[80];
+                uint64_t h = UINT64_C(0xcbf29ce484222325);
+
+                for (unsigned i = 0; i < sizeof(k2); i++)
+                        k2[i] = (uint8_t) (i * 3 + 17 * (unsigned) (c - M) + (unsigned) c->seq);
+                imb_hmac_ipad_opad(mgr, IMB_AUTH_HMAC_SHA_256, k2, 20 + (size_t) (c->seq % 60), ipad, opad);
+                h = fnv(h, ipad, 32);
+                h = fnv(h, opad, 32);
+                return (long) (h & 0x7fffffff);
+        }
         case 8:
                 imb_hmac_ipad_opad(mgr, IMB_AUTH_AES_CMAC, key, 20, ipad, opad); /* fails: HASH_ALGO (mirror only) */
                 return 0;
